@@ -20,7 +20,7 @@ RULE = (
 )
 ASSUMPTIONS = ["the interaction sample type links through exp and the Bliss baseline: its viability is checked against its own documented formula and its mean must be 0 whenever a control is present"]
 REQUIRED = {"theta_screen_pairs": {"quick": 1500, "thorough": 40000}, "purity_checks": {"quick": 6000, "thorough": 150000}, "control_neutrality_rows": {"quick": 3000, "thorough": 80000}, "helper_checks": {"quick": 200, "thorough": 5000}}
-N_PAIRS = {"quick": 2000, "thorough": 48000}
+N_PAIRS = {"quick": 4000, "thorough": 64000}
 
 
 def theta_arrays(th):
